@@ -15,6 +15,7 @@ import (
 )
 
 var firstHistory *int
+var onlyGiven *int
 var withQueries bool
 
 func envSeed() int64 {
@@ -88,6 +89,7 @@ func main() {
 	depth := fs.Int("depth", 50, "history length")
 	iavl := fs.Bool("iavl", false, "IAVL-backed stores with a commit per transaction")
 	first := fs.Int("first", 1, "first history number (replays)")
+	onlyGiven = fs.Int("only", 0, "determinism: only this given history (replays)")
 	fs.BoolVar(&withQueries, "q", false, "also observe the state through all queries after every transaction")
 	firstHistory = first
 	fs.BoolVar(&MixedCaseMint, "mixed", false, "chain configuration with a mixed-case minting denom (uUSDC)")
